@@ -29,6 +29,7 @@ import scipy.special
 from harness import lib
 from harness.lib import q, ql, qll, b
 from harness.translate import stencil, pyexpr
+from harness.props import c19_types
 
 GODAMBE = os.path.join(lib.REPO, 'dadi', 'Godambe.py')
 K_ABS = Fraction(1, 2 ** 40)        # absolute allowance, in units of the conditioning scale  (sum|terms| / (h_i h_j))
@@ -1414,6 +1415,11 @@ def run(ctx):
                 'indices {ascending, descending, rotated} x {LRT_adjust, score_stat, Wald_stat with complete full_params, Wald_stat with the nested values} x index list as '
                 '{list, array, tuple} x full_params as {array, list, tuple}, plus a repeated index per family; 3 families of get_godambe / GIM_uncert / FIM_uncert with '
                 'p0 / bootstraps / grid points / theta adjusts as list, tuple, array and theta adjusts rotated against the bootstraps (thorough: 16 more random families, all listings). '
+                'T (every run, enumerated): the same numbers in every python / numpy type, container and memory layout the unchanged library accepts (tables in c19_types.py): '
+                'sum_chi2_ppf x as python float/int/bool, numpy float64/32/16, int64..int8, uint8/64, bool_ scalars, 0-d arrays, lists / tuples / ndarrays of each, strided / negatively strided / '
+                'read-only / Fortran / transposed views, masked arrays, 2-D, weights in 22 spellings or left out; get_hess / get_grad / hessian_elem with p0 / eps / args / one_sided / ii, jj / f0 typed; '
+                'the six get_godambe-family functions with p0 / grid points / eps / nested_indices / full_params / theta adjusts / flags / data / bootstraps typed, the same object passed twice; '
+                'each against the canonical spelling (bit for bit), the property predicates, unchanged arguments, a repeated call; thorough size whenever a source obligation is broken. '
                 'distinct = distinct generated input; non-trivial = every case (all have >= 1 parameter and evaluate >= 3 stencil points)')
     ctx.assumptions += [
         'float64 results are compared with the exact-rational model at K=2^-40 x (sum of |terms| of the function) / (h_i h_j) + 1e-11 relative: round-off of a second difference scales with 1/h^2',
@@ -1425,6 +1431,8 @@ def run(ctx):
         'the order in which get_godambe sees the nested parameters is not prescribed: where the implementation re-lists them, its (p0, H, J, cU) are put back in the caller\'s order before the comparisons (the returned statistics are compared as returned)',
         'nested_indices as a tuple and boot_theta_adjusts as an array are outside the documented types (list): numpy\'s IndexError/TypeError/ValueError is tolerated there, a value different from the list call\'s is not',
         'two listings of the same nested parameters run the same stencils in another order: their results may differ by round-off of size ulp(ll)/h^2, allowed as (1e-9 + 4e-15 |ll| / h^2 / |H|) x cond',
+        'argument types (stream T): float32 / float16 parameters and steps are compared only where every abscissa of the stencils is exact in that precision (numpy adds p0[i] + step in the operand precision); '
+        'numpy.log of a float32 parameter array (log mode) is a float32 logarithm and is not compared; a 0-d array statistic makes sum_chi2_ppf answer with a shape-(1,) array (numpy.isscalar is False): values compared, shape allowed',
     ]
     ctx.trusted += ['harness/translate/stencil.py (symbolic execution of hessian_elem / get_grad / step-size loops into Coq terms; fail-closed)',
                     'numpy assembly in get_godambe (outer, dot, inv) and Spectrum masking are covered by execution only']
@@ -1444,9 +1452,20 @@ def run(ctx):
             run_history_stream(ctx, [{'hid': 0, 'ops': inp['ops']}]); return
         if st == 'order':
             replay_order(ctx, inp); return
+        if st == 'types':
+            c19_types.replay(ctx, report, inp); return
     import time
     t = time.time()
     translator_obligations(ctx); ctx.notes.append('translator %.1fs' % (time.time() - t)); t = time.time()
+    # stream T (argument types / containers / layouts), every run.  A source obligation that no longer checks starts a targeted
+    # search: the stream at thorough size, before anything is reported without a failing input
+    c19_types.source_obligation(ctx, GODAMBE)
+    broken = [o['name'] for o in ctx.obligations if not o['ok'] and o['kind'] == 'translator']
+    if broken:
+        ctx.notes.append('source obligation(s) broken (%s): argument-type stream run at thorough size as a targeted search' % '; '.join(broken[:3]))
+        ctx.count('T.targeted search after a broken source obligation')
+    nT = c19_types.run(ctx, report, thorough=(not ctx.quick) or bool(broken))
+    ctx.notes.append('stream T %.1fs (%d failing spellings)' % (time.time() - t, nT)); t = time.time()
     run_hess_stream(ctx, gen_hess_cases(ctx)); ctx.notes.append('stream A %.1fs' % (time.time() - t)); t = time.time()
     nB = ctx.pick(30, 300)
     base = []
